@@ -129,3 +129,163 @@ def check_no_stale_state(ctx, rule, funcs, allow, why):
                           "(%d such variable(s) here, %d deliberate). %s" % (name, d.lineno, len(names), budget, why))
     ctx.ok(rule, "%d loops in %d functions: no loop-carried conditional state beyond the frozen exceptions" % (n_loops, len(list(funcs))), "")
     return n_loops
+
+
+def last_only_vars(fi):
+    """Variables whose only in-loop definitions are plain (non-accumulating) assignments and whose in-loop value is read
+    after the loop: only the last iteration's value survives.  Search loops (the definition is followed by a `break`/
+    `return` on every path) and loop targets are not reported.  -> [(loop ast, var name, use ast, def ast)]"""
+    out = []
+    rd = ReachingDefs(fi)
+    cfg = rd.cfg
+    loops = [n for n in cfg.nodes if n.kind == "loop" or (n.kind == "cond" and isinstance(n.extra, ast.While))]
+    for lp in loops:
+        body = lp.extra.body if lp.extra is not None else []
+        body_ids = {id(x) for b in body for x in ast.walk(b)}
+        body_nodes = [n for n in cfg.nodes if n.ast is not None and id(n.ast) in body_ids and n is not lp]
+        body_set = set(body_nodes)
+        if not body_nodes:
+            continue
+        targets = {x.id for x in ast.walk(lp.ast.target) if isinstance(x, ast.Name)} if lp.kind == "loop" else set()
+        defs_in = {}
+        for n in body_nodes:
+            for d in rd.gen[n]:
+                defs_in.setdefault(d.name, []).append((n, d))
+        for name, dl in defs_in.items():
+            if name in targets:
+                continue
+            if any(d.kind != "assign" for _, d in dl):
+                continue
+            if any(d.value is not None and any(isinstance(x, ast.Name) and x.id == name for x in ast.walk(d.value))
+                   for _, d in dl):
+                continue
+            # the definition can travel round the back edge (otherwise it is a search loop: def then break/return)
+            def_nodes = {dn for dn, _ in dl}
+            if not any(lp in cfg.reachable_from(dn, True) for dn in def_nodes):
+                continue
+            # the variable is also used inside the loop only as a per-iteration temporary?  irrelevant: we look at uses after
+            hit = None
+            for n in cfg.nodes:
+                if n in body_set or n is lp or n not in rd.IN or n.ast is None:
+                    continue
+                used = [x for r in _roots(n) for x in ast.walk(r)
+                        if isinstance(x, ast.Name) and x.id == name and isinstance(x.ctx, ast.Load)]
+                if not used:
+                    continue
+                reach = [d for d in rd.IN[n] if d.name == name and any(d is dd for _, dd in dl)]
+                if reach:
+                    hit = (lp.extra, name, used[0], reach[0].node)
+                    break
+            if hit:
+                out.append(hit)
+    return out
+
+
+def check_no_last_only(ctx, rule, funcs, allow, why):
+    """Armed form of last_only_vars with per-function count exceptions (see check_no_stale_state)."""
+    n_loops = 0
+    for f in funcs:
+        ctx.saw(f)
+        n_loops += sum(1 for x in walk_no_nested(f.node) if isinstance(x, (ast.For, ast.While)))
+        hits = last_only_vars(f)
+        names = []
+        for lp, name, use, d in hits:
+            if name not in names:
+                names.append(name)
+        budget, reason = allow.get(f.short, (0, ""))
+        if len(names) <= budget:
+            if names:
+                ctx.ok(rule, "%s: %d variable(s) keep the last iteration's value on purpose — %s" % (f.short, len(names), reason),
+                       loc(f, f.node))
+            continue
+        for lp, name, use, d in hits:
+            ctx.violation(rule, f.qualname, "last-iteration-only value in %s" % f.short, loc(f, use),
+                          "`%s` is overwritten (not accumulated) in every iteration of the loop at line %d and read after the "
+                          "loop: only the last iteration's value is used (%d such variable(s) here, %d deliberate). %s"
+                          % (name, lp.lineno, len(names), budget, why))
+    ctx.ok(rule, "%d loops in %d functions: no value of a per-entry loop is consumed after the loop except the frozen exceptions"
+           % (n_loops, len(list(funcs))), "")
+    return n_loops
+
+
+def _own_breaks(loop):
+    out = []
+
+    def rec(stmts):
+        for s in stmts:
+            if isinstance(s, (ast.For, ast.While, ast.AsyncFor)):
+                rec(s.orelse)
+                continue
+            if isinstance(s, (ast.FunctionDef, ast.AsyncFunctionDef, ast.ClassDef)):
+                continue
+            if isinstance(s, ast.Break):
+                out.append(s)
+            for fld in ("body", "orelse", "finalbody"):
+                v = getattr(s, fld, None)
+                if v:
+                    rec(v)
+            for h in getattr(s, "handlers", []) or []:
+                rec(h.body)
+            for c in getattr(s, "cases", []) or []:
+                rec(c.body)
+    rec(loop.body)
+    return out
+
+
+def silent_breaks(fi):
+    """Loops that accumulate into a list the function returns (`x += ...`, `x.append/extend(...)`) and are left by a `break`
+    that is not preceded, in the same iteration, by such an accumulation: the remaining items are skipped without a report.
+    -> (number of breaks examined, [(loop ast, break ast)])"""
+    returned = set()
+    for n in walk_no_nested(fi.node):
+        if isinstance(n, ast.Return) and n.value is not None:
+            returned |= {x.id for x in ast.walk(n.value) if isinstance(x, ast.Name)}
+    if not returned:
+        return 0, []
+
+    def is_emit(s):
+        for x in ast.walk(s):
+            if isinstance(x, ast.AugAssign) and isinstance(x.target, ast.Name) and x.target.id in returned:
+                return True
+            if isinstance(x, ast.Call) and isinstance(x.func, ast.Attribute) and x.func.attr in ("append", "extend") and \
+                    isinstance(x.func.value, ast.Name) and x.func.value.id in returned:
+                return True
+        return False
+    cfg = build_cfg(fi.node)
+    out, n_checked = [], 0
+    for lp in walk_no_nested(fi.node):
+        if not isinstance(lp, (ast.For, ast.While)):
+            continue
+        brs = _own_breaks(lp)
+        if not brs:
+            continue
+        body_ids = {id(x) for b in lp.body for x in ast.walk(b)}
+        emits = [n for n in cfg.nodes if n.kind == "stmt" and n.ast is not None and id(n.ast) in body_ids and is_emit(n.ast)
+                 and not isinstance(n.ast, (ast.For, ast.While, ast.If, ast.With, ast.Try))]
+        if not emits:
+            continue          # a search loop: nothing is reported per item
+        head = cfg.node_of(lp)
+        for b in brs:
+            bn = cfg.node_of(b)
+            if head is None or bn is None:
+                continue
+            n_checked += 1
+            if bn in cfg.reachable_from(head, True, avoid=set(emits)):
+                out.append((lp, b))
+    return n_checked, out
+
+
+def check_no_silent_break(ctx, rule, funcs, why):
+    total = 0
+    for f in funcs:
+        n, hits = silent_breaks(f)
+        if n:
+            ctx.saw(f)
+        total += n
+        for lp, b in hits:
+            ctx.violation(rule, f.qualname, b, loc(f, b),
+                          "the loop at line %d reports per item into the returned list, and this `break` leaves it without a "
+                          "report in the current iteration: every item after this one is skipped silently. %s" % (lp.lineno, why))
+        for _ in range(n - len(hits)):
+            ctx.ok(rule, "%s: break only after a report in the same iteration" % f.short, loc(f, f.node))
+    return total
